@@ -16,9 +16,9 @@ Bytes are `List UInt8`; `u64` arithmetic is explicit where the code checks it (`
 namespace ActixModel.ClientDecode
 open ActixModel.Util
 
-/-- `ChunkedState` (chunked.rs:19) -/
+/-- `ChunkedState` (chunked.rs:19; `Size` = start of a size line, `SizeDigit` = at least one digit read) -/
 inductive ChSt where
-  | size | sizeLws | ext | sizeLf | body | bodyCr | bodyLf | endCr | endLf | done
+  | size | sizeDigit | sizeLws | ext | sizeLf | body | bodyCr | bodyLf | endCr | endLf | done
   deriving DecidableEq, Repr, Inhabited
 
 /-- 2^64: `u64::checked_mul(16)` fails iff the product reaches this -/
@@ -38,8 +38,14 @@ def ctl (st : ChSt) (size : Nat) (b : UInt8) : Option (ChSt × Nat) :=
   let n := b.toNat
   match st with
   | .size =>
+    -- `read_size(.., first = true)`: chunk-size = 1*HEXDIG, the line cannot end / continue with
+    -- BWS or an extension before the first digit
     match hexVal8 b with
-    | some d => if size * 16 < u64Bound then some (.size, size * 16 + d) else none
+    | some d => if size * 16 < u64Bound then some (.sizeDigit, size * 16 + d) else none
+    | none => none
+  | .sizeDigit =>
+    match hexVal8 b with
+    | some d => if size * 16 < u64Bound then some (.sizeDigit, size * 16 + d) else none
     | none =>
       if n = 9 ∨ n = 32 then some (.sizeLws, size)
       else if n = 59 then some (.ext, size)
@@ -174,8 +180,9 @@ def feed (p : Pl) (seg : Bytes) : Pl :=
 
 /-- a socket read returned 0: EOF flag set, READABLE set → `ClientPayloadCodec::decode_eof`
 (client.rs, after the F8 repair): decode once more; `None` is a clean end only for the
-read-until-close decoder, otherwise `PayloadError::Incomplete(None)`. -/
-def atEof (p : Pl) : Pl :=
+read-until-close decoder and for a response whose status cannot have a body (`bodiless`: 1xx,
+204, 304 — `Flags::BODILESS_STATUS`), otherwise `PayloadError::Incomplete(None)`. -/
+def atEof (bodiless : Bool) (p : Pl) : Pl :=
   match p.fin with
   | some _ => p
   | none =>
@@ -184,7 +191,7 @@ def atEof (p : Pl) : Pl :=
       fin := match d.st with
         | .done => some .complete
         | .failed => some .ioError
-        | .more => if d.kind = .eof then some .closeDelimited else some .incomplete }
+        | .more => if d.kind = .eof || bodiless then some .closeDelimited else some .incomplete }
 
 /-- feed segments until the stream has ended; returns the state and the segments never read -/
 def feedAll : Pl → List Bytes → Pl × List Bytes
@@ -205,10 +212,11 @@ structure BodyResult where
 
 /-- the whole body phase: `buf0` = bytes already in `read_buf` after the head, `segs` = the
 following socket reads, `closed` = the peer closes after the last segment -/
-def runBody (k : Kind) (buf0 : Bytes) (segs : List Bytes) (closed : Bool) : BodyResult :=
+def runBody (k : Kind) (buf0 : Bytes) (segs : List Bytes) (closed : Bool) (bodiless : Bool := false) :
+    BodyResult :=
   let p0 := feed { kind := k, buf := [], out := [] } buf0
   let (p, unread) := feedAll p0 segs
-  let p := if closed then atEof p else p
+  let p := if closed then atEof bodiless p else p
   { delivered := p.out, fin := p.fin.getD .pending, discarded := p.buf, unread := unread }
 
 end ActixModel.ClientDecode
